@@ -37,8 +37,9 @@ let () = main_loop (function
       "pcsf " ^ hex_of_bytes o ^ " st=" ^ string_of_bool st ^ " rel=" ^ string_of_bool rel
   | ["strf"; _; _] -> "strf - st=0"   (* escape(b,e,ostream&) returns at once; ostream_iterator / write on a failed stream do nothing *)
   | ["pcsb"; op; h] ->
-      let f = (match op with "esc" -> escape | "uenc" -> urlencode | _ -> encode_str) in
-      let (o, st) = filter_on_failed_stream f (bytes_of_hex h) in
+      let v = bytes_of_hex h in
+      let (o, st) = (match op with "esc" -> filter_on_failed_stream escape v | "uenc" -> filter_on_failed_stream urlencode v
+                                 | _ -> filter_base64_on_failed_stream v) in
       "pcsb " ^ hex_of_bytes o ^ " st=" ^ string_of_bool st
   | ["formfull"; kind; mode; h] ->
       let k = n_of_int (kind_index kind) and m = n_of_int (int_of_string mode) in
